@@ -241,7 +241,11 @@ class DictModel:
         self.tag = tag
 
     def copy(self):
-        return DictModel(dict(self.entries), self.open, self.make_val, self.tag)
+        m = DictModel(dict(self.entries), self.open, self.make_val, self.tag)
+        m.origin = getattr(self, "origin", None)
+        if hasattr(self, "sym_entries"):
+            m.sym_entries = list(self.sym_entries)
+        return m
 
 
 # ------------------------------------------------------------------------ state
@@ -300,6 +304,7 @@ class Engine:
         self.hooks = []            # discipline hook objects
         self.contracts_applied = set()
         self.lazy_init = {}
+        self.lazy_dict_init = {}
         self.covered = set()
         self.notes = []
         self._fresh = itertools.count()
@@ -346,8 +351,23 @@ class Engine:
 
     def new_dict(self, model):
         did = next(self._fresh)
+        if getattr(model, "origin", None) is None:
+            model.origin = did
         self.state.dicts[did] = model
         return VDict(did)
+
+    def dict_lazy_entry(self, m, ck):
+        """first look-up of key ck in an OPEN symbolic dict: the (presence, value) pair of the dict's initial content, created once
+        per path and shared by every copy / snapshot derived from the same original dict"""
+        key = (getattr(m, "origin", None), ck)
+        ent = self.lazy_dict_init.get(key)
+        if ent is None:
+            p = self.fresh_bool("has[%s]" % ck).t
+            val = m.make_val(ck) if m.make_val else VOpaque("dictval")
+            ent = (p, val)
+            self.lazy_dict_init[key] = ent
+        m.entries[ck] = ent
+        return ent
 
     def fresh_of_type(self, ty, base):
         """ty: type descriptor from contracts (see contract.py)"""
@@ -422,6 +442,10 @@ class Engine:
             m.seq = sq
             m.elem_ty = elem_ty
             return self.new_list(m)
+        if k == "strset":
+            # finite set of known strings with symbolic membership (a closed map name -> presence)
+            ents = {nm: (self.fresh_bool("%s[%s]" % (base, nm)).t, NONE) for nm in ty[1]}
+            return self.new_dict(DictModel(ents, False, None, "strset"))
         if k == "oneof":
             # union of object classes: split by decision
             for i, alt in enumerate(ty[1][:-1]):
@@ -495,6 +519,7 @@ class Engine:
             self.state = State()
             self.vars = {}
             self.lazy_init = {}
+            self.lazy_dict_init = {}
             self.path_id = n
             try:
                 run_once()
@@ -767,6 +792,8 @@ class Engine:
             return self.new_dict(DictModel({k: (z3.BoolVal(True), self.lift_runtime(v, tag)) for k, v in val.items()}, False, None, tag))
         if hasattr(val, "pattern") and hasattr(val, "groupindex"):
             return VOpaque("regex:" + tag)
+        if isinstance(val, type) and issubclass(val, tuple) and hasattr(val, "_fields"):
+            return VFunc("namedtuple", fields=tuple(val._fields), name="namedtuple:" + tag)
         return VOpaque("runtime:" + tag)
 
     def e_Tuple(self, node, fr):
@@ -1278,10 +1305,7 @@ class Engine:
                 return m.entries[ck][0]
             if not m.open:
                 return z3.BoolVal(False)
-            p = self.fresh_bool("has[%s]" % ck).t
-            val = m.make_val(ck) if m.make_val else VOpaque("dictval")
-            m.entries[ck] = (p, val)
-            return p
+            return self.dict_lazy_entry(m, ck)[0]
         # symbolic key: present iff equals a present concrete key (closed dict) / unknown (open)
         if not m.open:
             return z3.Or([z3.And(p, sym.t == z3.StringVal(k)) for k, (p, _) in m.entries.items()]) if m.entries else z3.BoolVal(False)
